@@ -4,7 +4,7 @@
 // terminal_is_recognised).  One instantiation per format because the hook structs are private.
 
 use super::*;
-use crate::verif_common::{label_round_trip, instr_round_trip, instr_size_field, terminal_is_recognised, Stored, SizeField};
+use crate::verif_common::{instr_time_is_stored, label_round_trip, instr_round_trip, instr_size_field, terminal_is_recognised, Stored, SizeField};
 
 macro_rules! c03 {
     ($name:ident, $unwind:literal, $body:expr) => {
@@ -31,6 +31,9 @@ c03!(c03_msg_terminal, 8, terminal_is_recognised(&MsgHooks { language: LanguageK
 
 //@ C03 c03_label_absolute quick default default label encoding (MSG, ANM, STD TH095+: absolute offset): decode_label(encode_label(dest)) == dest for every offset below 2^31
 c03!(c03_label_absolute, 2, label_round_trip(&MsgHooks { language: LanguageKey::Msg }, 1));
+
+//@ C13 c13_msg_time_stored quick default MSG: if write_instr accepts an instruction, the time read back from the written bytes is the requested time, for every i32 time (a time that does not fit the field must be rejected, never stored differently)
+c03!(c13_msg_time_stored, 8, instr_time_is_stored::<4>(&MsgHooks { language: LanguageKey::Msg }, Stored { param_mask: false, difficulty: false, extra_arg: false, pop_and_arg_count: false, maybe_terminal: true, ignore_param_mask: false }, |_| true));
 
 #[cfg(kani)]
 #[path = "/verif/.cache/playback/msg.rs"]
